@@ -12,7 +12,7 @@ import (
 )
 
 func init() {
-	register("C11", "Structural clauses that make a filtered view transfer as a self-contained tree: the sender's filesystem is only ever the hard-link-resetting wrapper; filterFS.Open consults, before delegating, every matcher filterFS.Walk consults, with the parent-aware query, and a hidden path yields an error wrapping os.ErrNotExist; the link-reset filter uses one map per walk, records every regular entry, and reports rewritten entries with the rewritten stat; the receiver's validators are wired (shared with C03). Does not decide that the stream is valid for every filter configuration nor walk/open agreement as a semantic statement.", runC11)
+	register("C11", "Structural clauses that make a filtered view transfer as a self-contained tree: the sender's filesystem is only ever the hard-link-resetting wrapper; filterFS.Open consults, before delegating, every matcher filterFS.Walk consults, with the parent-aware query, and a hidden path yields an error wrapping os.ErrNotExist; the link-reset filter uses one map per walk, records every regular entry, and reports rewritten entries with the rewritten stat; the receiver's validators are wired (shared with C03); the walk prunes a directory only by literal prefix under the prefix-only flag of the right polarity, computed from the patterns of that polarity (shared with C10). Does not decide that the stream is valid for every filter configuration nor walk/open agreement as a semantic statement.", runC11)
 }
 
 func runC11(c *Ctx) {
@@ -29,6 +29,10 @@ func runC11(c *Ctx) {
 	// two prefix-only flags that allow pruning are computed from the patterns
 	// of the right polarity (shared with C10)
 	r10_6(c, "R11.6")
+	// ... and each pruning site consults the flag of its own polarity (the
+	// exclude-side prune the exception flag, the include-side prune the
+	// include flag; shared with C10)
+	r10_1(c, "R11.7")
 }
 
 func r11_1(c *Ctx, rule string) {
